@@ -10,6 +10,7 @@ import Dagrt.Driver.C20
 import Dagrt.Driver.C13
 import Dagrt.Driver.C18
 import Dagrt.Driver.C19
+import Dagrt.Driver.C12
 import Dagrt.Driver.C16
 import Dagrt.Driver.C07
 import Dagrt.Driver.C17
@@ -32,6 +33,7 @@ def dispatch (j : Json) : R Json := do
   | ["C18", o] => C18.handle o j
   | ["C20", o] => C20.handle o j
   | ["C19", o] => C19.handle o j
+  | ["C12", o] => C12.handle o j
   | ["C13", o] => C13.handle o j
   | ["C14", o] => Kinds.handle o j
   | ["C09", o] => Kinds.handle o j
